@@ -505,6 +505,11 @@ func (u *Unit) appendOp(fr *Frame, st *State, c *ssa.CallCommon, args []Val, pos
 			body = tb.Implies(tb.Or(inNew, inOld), body)
 		}
 		u.assume(st.guard, tb.Forall([]*Term{j}, body))
+		// the same fact about the appended elements, indexed by the source position
+		// (so that facts quantified over the source's indices can be transferred)
+		i := tb.BoundVar("i", ix)
+		u.assume(st.guard, tb.Forall([]*Term{i}, tb.Implies(tb.And(m.IxLe(m.IxConst(0), i), m.IxLt(i, srcLen)),
+			tb.Eq(tb.Select(a, m.ElemIx(base, m.IxAdd(n0, i))), tb.Select(srcArr, m.ElemIx(srcOff, i))))))
 		return a
 	}
 	inPlaceArr := mkArr("app_inplace", m.SliceOff(s), oldArr, nil)
